@@ -30,7 +30,7 @@ Lemma format_token_localizable rec loc t tok :
   format_token rec loc t tok = format_localizable loc t tok.
 Proof. intros H1 H2. unfold format_token. rewrite H1, H2. reflexivity. Qed.
 
-Ltac token_rule := erewrite format_token_rule by (vm_compute; reflexivity); cbn [apply_rule andb]; cbv beta iota delta [fq_of];
+Ltac token_rule := erewrite format_token_rule by (vm_compute; reflexivity); cbn [apply_rule andb]; cbv beta iota zeta delta [fq_of];
   try (unfold render_dec; cbn [Z.eqb Z.to_nat skipn]; reflexivity).
 
 Section Tokens.
